@@ -458,6 +458,30 @@ func checkConjSolid(c conjCase, o *kit.Obs) error {
 			return fmt.Errorf("TransformSolid(%+v, %s): the image %v of an interior point lies outside the reported bounds [%v, %v]", x, s.Kind, q, min, max)
 		}
 	}
+	// exactly representable boxes under exactly representable maps (quarter-integer corners and offsets, scales by
+	// powers of two): the image of a closed box is the closed image box, faces, edges and corners included
+	if len(c.Pts) > 0 {
+		bits := math.Float64bits(c.Pts[0][0])
+		q4 := func(sh uint) float64 { return float64(int((bits>>sh)%33)-16) / 4 }
+		lo := model3d.XYZ(q4(0), q4(6), q4(12))
+		hi := lo.Add(model3d.XYZ(float64(1+(bits>>18)%8)/4, float64(1+(bits>>21)%8)/4, float64(1+(bits>>24)%8)/4))
+		off := model3d.XYZ(q4(27), q4(33), q4(39))
+		k := []float64{1, 2, 0.5, 4}[(bits>>45)%4]
+		box := &model3d.Rect{MinVal: lo, MaxVal: hi}
+		tr := model3d.JoinedTransform{&model3d.Scale{Scale: k}, &model3d.Translate{Offset: off}}
+		for name, solid := range map[string]model3d.Solid{"TransformSolid": model3d.TransformSolid(tr, box), "TranslateSolid(ScaleSolid)": model3d.TranslateSolid(model3d.ScaleSolid(box, k), off)} {
+			for i := 0; i < 27; i++ {
+				var p [3]float64
+				for a, v := range [3][2]float64{{lo.X, hi.X}, {lo.Y, hi.Y}, {lo.Z, hi.Z}} {
+					p[a] = []float64{v[0], (v[0] + v[1]) / 2, v[1]}[(i/[]int{1, 3, 9}[a])%3]
+				}
+				img := model3d.NewCoord3DArray(p).Scale(k).Add(off)
+				if !solid.Contains(img) {
+					return fmt.Errorf("%s of the closed box [%v, %v] scaled by %g and moved by %v does not contain the image %v of its point %v (corner, edge, face or centre: all numbers are exact)", name, lo, hi, k, off, img, p)
+				}
+			}
+		}
+	}
 	return nil
 }
 
@@ -465,6 +489,14 @@ func checkConjCollider(c conjCase, o *kit.Obs) error {
 	s, x := c.Shape, c.X
 	orig := s.Build()
 	tc := model3d.TransformCollider(x.Build().(model3d.DistTransform), orig)
+	if x.Kind == "joined" && len(x.Parts) >= 2 && len(c.Pts) > 0 && math.Float64bits(c.Pts[0][1])%2 == 0 {
+		// the same map as a wrapper of a wrapper: one TransformCollider per part, the first part innermost
+		tc = orig
+		for _, part := range x.Parts {
+			tc = model3d.TransformCollider(part.Build().(model3d.DistTransform), tc)
+		}
+		o.Label("nested-wrappers")
+	}
 	f := x.DistFactor()
 	what := fmt.Sprintf("TransformCollider(%+v, %s %+v)", x, s.Kind, s)
 	for ri, r := range c.Rays {
